@@ -59,7 +59,7 @@ func runC04(c *Ctx) {
 	seeds = append(seeds, os...)
 	seeds = append(seeds, fixtureSeeds()...)
 	c.Rep.Extra["seeds"] = len(seeds)
-	nflip := c.N(40, 1500)
+	nflip := c.Bound(40, 600)
 	for _, s := range seeds {
 		others := otherCerts(s, rng)
 		evalVerify(c, "C04", "sound", s.name+"/original", s.blob, s.cert, "signer")
